@@ -172,6 +172,7 @@ func c15Variation(c *core.Ctx, plug, variation string, s, other *schema.Schema, 
 		if len(base.FileToGenerate) < 2 {
 			return "", nil
 		}
+		owner := map[string]string{}
 		for _, fn := range base.FileToGenerate {
 			one := proto.Clone(base).(*pluginpb.CodeGeneratorRequest)
 			one.FileToGenerate = []string{fn}
@@ -189,6 +190,17 @@ func c15Variation(c *core.Ctx, plug, variation string, s, other *schema.Schema, 
 			if d := diffOutcome(o, ref, nil, false); d != "" {
 				return fmt.Sprintf("%s generated alone vs together with the package's other files: %s", fn, d), nil
 			}
+			// the output for a file is produced when that file is requested, not when a file that imports it is:
+			// two single-file runs never emit the same output file
+			for _, n := range sortedKeys(o.files) {
+				if prev, dup := owner[n]; dup {
+					return fmt.Sprintf("output file %s is emitted both when only %s and when only %s is requested: a file that is merely imported contributed output", n, prev, fn), nil
+				}
+				owner[n] = fn
+			}
+		}
+		if ref.err == "" && len(owner) != len(ref.files) {
+			return fmt.Sprintf("the files generated one by one yield %d output files, all together %d", len(owner), len(ref.files)), nil
 		}
 	case "param_spelling":
 		alt, err := schema.Request(paramAlt, s)
